@@ -531,7 +531,7 @@ ALL_THREADS = dict(UsersA=set(USERS["A"]), UsersB=set(USERS["B"]),
 def trace_consts(clauses):
     c = dict(ALL_THREADS)
     c.update(OpsA="@{}", OpsB="@{}", MaxCalls=0, W0=0, MaxPkt=0, PeerMax=0, Thresh=0, SendN=0, Codes="@{}",
-             ReadSizes="@{}", Modes="@{}", Loss=False, FixRace=False, FixSendall=False, FixCredit=False, Mut="none",
+             ReadSizes="@{}", Modes="@{}", Loss=False, FixRace=False, HoldBack=False, FixSendall=False, FixCredit=False, Mut="none",
              SpinCap=3, Clauses=set(clauses))
     return c
 
